@@ -60,24 +60,26 @@ def _inline_one(rec):
 
 def _inline_part(ctx, tier):
     from .. import tlc
-    r = tlc.run("mc/MC_MdInline", "MC_MdInline_7.cfg" if tier == "quick" else "MC_MdInline_8.cfg", keep_raw=False, timeout=3000)
-    ctx.ev.add_tlc("MC_MdInline (every line over {a, space, *, _}; balanced, delimiters conserved)", r)
-    if not r.ok:
-        raise Machinery("MdInline violates %s" % r.violated)
-    recs = [p for p in r.printed if isinstance(p, dict)]
-    res = impl.pmap(_inline_one, recs, procs=16, chunksize=200)
     cnt = {"agree": 0, "violation": 0, "skip": 0, "does-not-parse": 0}
-    for rec, o in zip(recs, res):
-        line = "".join(rec["l"])
-        for ctxname, (verdict, tree) in o.items():
-            cnt[verdict] += 1
-            if verdict == "violation":
-                ctx.violation("emphasis:%s :: %s" % (ctxname, line),
-                              {"document": line, "context": ctxname, "expected_html": "".join(rec["html"]), "implementation_tree": tree})
+    for mod, cfg, what in (("mc/MC_MdInline", "MC_MdInline_7.cfg" if tier == "quick" else "MC_MdInline_8.cfg", "emphasis over {a, space, *, _}"),
+                           ("mc/MC_MdInline2", "MC_MdInline2_6.cfg" if tier == "quick" else "MC_MdInline2_7.cfg", "code spans, escapes and emphasis over {a, space, *, `, \\}")):
+        r = tlc.run(mod, cfg, keep_raw=False, timeout=3000)
+        ctx.ev.add_tlc("%s (%s; every line, result balanced)" % (mod, what), r)
+        if not r.ok:
+            raise Machinery("MdInline violates %s" % r.violated)
+        recs = [p for p in r.printed if isinstance(p, dict)]
+        res = impl.pmap(_inline_one, recs, procs=16, chunksize=200)
+        for rec, o in zip(recs, res):
+            line = "".join(rec["l"])
+            for ctxname, (verdict, tree) in o.items():
+                cnt[verdict] += 1
+                if verdict == "violation":
+                    ctx.violation("inline:%s :: %s" % (ctxname, line),
+                                  {"document": line, "context": ctxname, "expected_html": "".join(rec["html"]), "implementation_tree": tree})
+        ctx.ev.cov["evaluations"] += 3 * len(recs)
+        ctx.ev.cov["traces_validated_against_impl"] += 3 * len(recs)
+        ctx.ev.cov["distinct_nontrivial"] += sum(1 for rec in recs if any(h.startswith("<") for h in rec["html"]))
     ctx.ev.parts["inline_verdicts"] = cnt
-    ctx.ev.cov["evaluations"] += 3 * len(recs)
-    ctx.ev.cov["traces_validated_against_impl"] += 3 * len(recs)
-    ctx.ev.cov["distinct_nontrivial"] += sum(1 for rec in recs if any(h.startswith("<") for h in rec["html"]))
     return cnt
 
 
